@@ -432,6 +432,7 @@ type Contract struct {
 	Modifies []*Clause
 	ModAll   bool // modifies *
 	Pure     bool // modifies nothing (no clause needed)
+	Sampler  bool // result is a random draw, recorded as ghost sample(k) in the caller
 	Trusted  bool // contract assumed, body not verified
 	MayPanic bool // callers cannot rely on absence of panic
 	DeadPoints int // number of blocks/returns that are legitimately unreachable
@@ -475,7 +476,7 @@ func newContractSet() *ContractSet {
 
 var clauseKeywords = map[string]bool{
 	"func": true, "props": true, "requires": true, "ensures": true, "modifies": true, "assume-ensures": true,
-	"pure": true, "trusted": true, "maypanic": true, "deadpoints": true, "loop": true, "site": true, "let": true,
+	"pure": true, "trusted": true, "maypanic": true, "deadpoints": true, "sampler": true, "loop": true, "site": true, "let": true,
 	"define": true, "global": true, "ghost": true, "unfold": true, "skip": true, "note": true, "package": true, "thorough": true,
 }
 
@@ -663,6 +664,9 @@ func (cs *ContractSet) parseContractFile(path, pkgPath string, goFile bool) erro
 				}
 			case "pure":
 				cur.Pure = true
+			case "sampler":
+				// the first result is a fresh random draw: callers may name it sample(k)
+				cur.Sampler = true
 			case "trusted":
 				cur.Trusted = true
 				if rest != "" {
